@@ -102,7 +102,10 @@ def _macro(fn):
             ph = [z3.Const(f"macro!{fn.__name__}!{i}", Py) for i in range(n)]
             cache["ph"] = ph
             cache["t"] = fn(*ph)
-        return z3.substitute(cache["t"], *zip(cache["ph"], args))
+        r = z3.substitute(cache["t"], *zip(cache["ph"], args))
+        if any(a.decl().kind() == z3.Z3_OP_DT_CONSTRUCTOR for a in args):
+            r = z3.simplify(r)  # constructor tests on a known constructor fold away
+        return r
 
     return wrapper
 
@@ -400,6 +403,13 @@ def py_str(t):
 from .pyvalues import UNDEFINED_PY, Undefined  # noqa: E402
 
 
+def _unescape(s):
+    """z3 prints non-ASCII / control characters as \\u{hex}: turn them back into characters."""
+    import re as _re
+
+    return _re.sub(r"\\u\{([0-9a-fA-F]+)\}", lambda mo: chr(int(mo.group(1), 16)), s)
+
+
 def _seq_to_list(m, seq):
     n = m.eval(z3.Length(seq), model_completion=True).as_long()
     return [to_python(m, m.eval(seq[i], model_completion=True)) for i in range(n)]
@@ -421,7 +431,7 @@ def to_python(m, t):
             return float(fractions.Fraction(v.numerator_as_long(), v.denominator_as_long()))
         return float(v.approx(10).as_fraction())
     if d == "str":
-        return t.arg(0).as_string() if z3.is_string_value(t.arg(0)) else str(t.arg(0))
+        return _unescape(t.arg(0).as_string()) if z3.is_string_value(t.arg(0)) else str(t.arg(0))
     if d == "list":
         return _seq_to_list(m, t.arg(0))
     if d == "tuple":
